@@ -224,7 +224,11 @@ func genResp(r *Rng) Sx {
 		}
 		ops = kept
 	}
-	return L(script, B(comp), B(pretty), via, ops)
+	presetLen := ""
+	if r.Pct(12) {
+		presetLen = r.Pick([]string{"37", "0", "1048576"}) // a Content-Length announced on the response before anything is written
+	}
+	return L(script, B(comp), B(pretty), via, ops, A(presetLen))
 }
 
 type respObs struct {
@@ -326,7 +330,14 @@ func runRespOps(resp *restful.Response, ops []Sx, pretty bool, w *failingWriter)
 
 func runResp(raw Sx) (Sx, Sx) {
 	script, comp, pretty, via, ops := sxNth(raw, 0), sxBool(sxNth(raw, 1)), sxBool(sxNth(raw, 2)), sxInt(sxNth(raw, 3)), sxList(sxNth(raw, 4))
+	presetLen := ""
+	if len(sxList(raw)) > 5 {
+		presetLen = sxStr(sxNth(raw, 5))
+	}
 	w := &failingWriter{hdr: http.Header{}}
+	if presetLen != "" {
+		w.hdr.Set("Content-Length", presetLen)
+	}
 	for _, s := range sxList(script) {
 		w.script = append(w.script, [2]int{sxInt(sxNth(s, 0)), B(sxBool(sxNth(s, 1)))})
 	}
@@ -422,7 +433,7 @@ func runResp(raw Sx) (Sx, Sx) {
 	if full == nil {
 		full = Ls(ops)
 	}
-	return L(Ls{}, script, B(comp), B(pretty), via, full), L(errs, code, clen, st, accepted, panicked)
+	return L(Ls{}, script, B(comp), B(pretty), via, full, A(presetLen)), L(errs, code, clen, st, accepted, panicked)
 }
 
 func init() { domains["resp"] = domain{gen: genResp, run: runResp} }
